@@ -60,7 +60,7 @@ PROPS["C01"] = {
     "stages": [
         pbt("roundtrip", "pbt_C01", quick={"cases": 3000, "size": 100, "shards": 8},
             thorough={"cases": 20000, "size": 200, "shards": 16}),
-        cgf("coverage_guided", "pbt_C01", quick={"runs": 8000, "workers": 8}, thorough={"runs": 600000, "workers": 16}),
+        cgf("coverage_guided", "pbt_C01", quick={"runs": 5000, "workers": 8}, thorough={"runs": 120000, "workers": 16}),
     ],
 }
 
@@ -79,7 +79,7 @@ PROPS["C07"] = {
     "stages": [
         pbt("frame_walker", "pbt_C07", quick={"cases": 3000, "size": 100, "shards": 8},
             thorough={"cases": 20000, "size": 200, "shards": 16}),
-        cgf("coverage_guided", "pbt_C07", quick={"runs": 8000, "workers": 8}, thorough={"runs": 600000, "workers": 16}),
+        cgf("coverage_guided", "pbt_C07", quick={"runs": 5000, "workers": 8}, thorough={"runs": 120000, "workers": 16}),
     ],
 }
 
@@ -97,7 +97,7 @@ PROPS["C08"] = {
     "stages": [
         pbt("layout_model", "pbt_C08", quick={"cases": 3000, "size": 100, "shards": 8},
             thorough={"cases": 20000, "size": 200, "shards": 16}),
-        cgf("coverage_guided", "pbt_C08", quick={"runs": 8000, "workers": 8}, thorough={"runs": 600000, "workers": 16}),
+        cgf("coverage_guided", "pbt_C08", quick={"runs": 5000, "workers": 8}, thorough={"runs": 120000, "workers": 16}),
     ],
 }
 
@@ -114,6 +114,7 @@ PROPS["C09"] = {
     "stages": [
         pbt("op_sequences", "pbt_C09", quick={"cases": 400, "size": 100, "shards": 8},
             thorough={"cases": 5000, "size": 200, "shards": 16}),
+        cgf("coverage_guided", "pbt_C09", quick={"runs": 1000, "workers": 8}, thorough={"runs": 30000, "workers": 16}),
     ],
 }
 
@@ -130,6 +131,7 @@ PROPS["C10"] = {
     "stages": [
         pbt("history_vs_fresh", "pbt_C10", quick={"cases": 2400, "size": 100, "shards": 8},
             thorough={"cases": 60000, "size": 200, "shards": 16}),
+        cgf("coverage_guided", "pbt_C10", quick={"runs": 2000, "workers": 8}, thorough={"runs": 120000, "workers": 16}),
     ],
 }
 
@@ -151,7 +153,7 @@ PROPS["C05"] = {
     "stages": [
         pbt("interleavings", "pbt_C05", quick={"cases": 4500, "size": 100, "shards": 8},
             thorough={"cases": 20000, "size": 200, "shards": 16}),
-        cgf("coverage_guided", "pbt_C05", quick={"runs": 6000, "workers": 8}, thorough={"runs": 400000, "workers": 16}),
+        cgf("coverage_guided", "pbt_C05", quick={"runs": 6000, "workers": 8}, thorough={"runs": 120000, "workers": 16}),
     ],
 }
 
@@ -190,7 +192,7 @@ PROPS["C18"] = {
     "stages": [
         pbt("projection", "pbt_C18", quick={"cases": 4500, "size": 100, "shards": 8},
             thorough={"cases": 20000, "size": 200, "shards": 16}),
-        cgf("coverage_guided", "pbt_C18", quick={"runs": 8000, "workers": 8}, thorough={"runs": 500000, "workers": 16}),
+        cgf("coverage_guided", "pbt_C18", quick={"runs": 8000, "workers": 8}, thorough={"runs": 120000, "workers": 16}),
     ],
 }
 
@@ -237,7 +239,7 @@ PROPS["C04"] = {
     "stages": [
         pbt("reference_parse", "pbt_C04", quick={"cases": 6000, "size": 100, "shards": 8},
             thorough={"cases": 150000, "size": 200, "shards": 16}),
-        cgf("coverage_guided", "pbt_C04", quick={"runs": 15000, "workers": 8}, thorough={"runs": 1000000, "workers": 16}),
+        cgf("coverage_guided", "pbt_C04", quick={"runs": 15000, "workers": 8}, thorough={"runs": 120000, "workers": 16}),
     ],
 }
 
@@ -416,7 +418,7 @@ PROPS["C16"] = {
         pbt("bounded_exhaustive", "pbt_C16", mode="enum", quick={}, thorough={"timeout": 7200}),
         pbt("random_sequences", "pbt_C16", quick={"cases": 4500, "size": 100, "shards": 8},
             thorough={"cases": 100000, "size": 200, "shards": 16}),
-        cgf("coverage_guided", "pbt_C16", quick={"runs": 2500, "workers": 8}, thorough={"runs": 150000, "workers": 16}),
+        cgf("coverage_guided", "pbt_C16", quick={"runs": 2500, "workers": 8}, thorough={"runs": 40000, "workers": 16}),
     ],
 }
 
